@@ -464,10 +464,57 @@ func (cx *Ctx) checkBase64Decoding(r *Report) {
 					continue
 				}
 			}
+			// xs:base64Binary content of an XML document (certificates in KeyInfo and in metadata) may be wrapped and
+			// indented with blanks and tabs; the Go decoder skips CR and LF only. Where the decoded bytes are parsed as a
+			// certificate, the text therefore has to lose all white space first.
+			if txtIdx >= 0 && txtIdx < len(args) && fnParsesCertificates(fn) {
+				stripped := false
+				for _, l := range lvf.Deep(lvf.Labels(args[txtIdx])).keys() {
+					if strings.HasPrefix(l, "via:") && removesAllWhitespace(lvf.scope, strings.TrimPrefix(l, "via:")) {
+						stripped = true
+					}
+					// a library call that is not a transparent transformer shows as a leaf: ext:<callee>(<constants>)#0
+					for _, nm := range []string{"(*regexp.Regexp).ReplaceAllString", "strings.Fields", "strings.Map", "strings.FieldsFunc"} {
+						if strings.HasPrefix(l, "ext:"+nm+"(") || strings.HasPrefix(l, "ext:"+nm+"#") {
+							if removesAllWhitespace(lvf.scope, nm) {
+								stripped = true
+							}
+						}
+					}
+				}
+				if !stripped {
+					r.Fail("R-B64", key+":certificate-whitespace", w.InstrPos(c), "certificate text is base64-decoded without all white space being removed first: the decoder skips line breaks only, so a certificate published in indented (pretty-printed) metadata or KeyInfo - legal xs:base64Binary - cannot be read and the provider's correctly signed requests are refused")
+					continue
+				}
+				r.Ok("R-B64", key+":certificate-whitespace", w.InstrPos(c), "all white space is removed from certificate text before decoding")
+			}
 			r.Ok("R-B64", key, w.InstrPos(c), "base64.StdEncoding on the text as received")
 		}
 	}
 	r.Check(n >= 3, "R-B64", "#decode-sites", "", fmt.Sprintf("%d base64 decoding sites", n), fmt.Sprintf("only %d base64 decoding sites found (3 expected: request message, POST signature input, redirect signature value)", n))
+}
+
+// fnParsesCertificates: fn hands decoded bytes to crypto/x509.
+func fnParsesCertificates(fn *ssa.Function) bool {
+	for _, c := range callsIn(fn) {
+		switch calleeName(c) {
+		case "crypto/x509.ParseCertificate", "crypto/x509.ParseCertificates":
+			return true
+		}
+	}
+	return false
+}
+
+// removesAllWhitespace: the transformer (by short name), at every call in scope, deletes every white-space character:
+// a regular expression made of white-space classes replaced by "", strings.Fields (joined again), or strings.Map.
+func removesAllWhitespace(scope map[*ssa.Function]bool, via string) bool {
+	switch via {
+	case "strings.Fields", "strings.Map", "strings.FieldsFunc":
+		return true
+	case "(*regexp.Regexp).ReplaceAllString":
+		return harmlessB64Rewrite(scope, via)
+	}
+	return false
 }
 
 // harmlessB64Rewrite: every call of the transformer (by short name) in scope can only remove text that valid base64
